@@ -14,7 +14,8 @@ Definition completed (s : st) (c : N) : Prop :=
 (* a future becomes Completed only
    - while the processor handles an acknowledgement (the last packet received) that carries the
      packet id under which the future is stored in the future store, or
-   - (connect future) while it handles a CONNACK with return code 0 in state connecting, or
+   - (connect future) in the processor's step that ends processConnack for a CONNACK with return code 0
+     (still the last packet received): after the listing and the last re-send, or when one of them failed, or
    - (QoS 0 publish) in the API call itself after conn.Send returned nil *)
 Definition C09_future_truthful_partial_statement : Prop :=
   forall es s e s' c, run step init es = Some s -> step s e = Some s' ->
@@ -22,8 +23,8 @@ Definition C09_future_truthful_partial_statement : Prop :=
   (e = EHid HProc /\ exists p rest id,
       g_rx (g s) = p :: rest /\ k_ppc (k s) = PAckFut p /\ is_ackp p = true /\ get_id p = Some id /\
       store_get_f s id = Some c) \/
-  (e = EHid HProc /\ exists sp rest,
-      g_rx (g s) = Connack sp 0 :: rest /\ k_ppc (k s) = PConnack sp 0 /\ k_cs (k s) = StConnecting /\
+  (e = EHid HProc /\ exists sp d rest,
+      g_rx (g s) = Connack sp 0 :: rest /\ k_ppc (k s) = PConnDone sp d /\
       t_connfut (t s) = Some c) \/
   (e = EHid HApi /\ k_api (k s) = Some (c, AReqFin)).
 
@@ -107,15 +108,10 @@ Proof.
   all: intros Hc Hn.
   all: peel Hc Hn.
   all: try solve [right; right; split; reflexivity].
-  (* CONNACK accepted *)
+  (* CONNACK accepted, listing and re-send over *)
   all: try solve [right; left; split; [reflexivity|];
                   cbn [rx_pc] in R; destruct R as [rest Hrx];
-                  match goal with E : negb (?rc =? 0) = false |- _ =>
-                    apply negb_false_iff, N.eqb_eq in E; subst rc end;
-                  match goal with E : negb (cst_n (k_cs (k ?s0)) =? 1) = false |- _ =>
-                    apply negb_false_iff, N.eqb_eq in E;
-                    assert (Hcs : k_cs (k s0) = StConnecting) by (destruct (k_cs (k s0)); try discriminate E; reflexivity) end;
-                  do 2 eexists; repeat split; first [eassumption|reflexivity]].
+                  do 3 eexists; repeat split; first [eassumption|reflexivity]].
   (* an acknowledgement *)
   all: try solve [left; split; [reflexivity|];
                   cbn [rx_pc] in R; destruct R as [[rest Hrx] Hack]; cbn [is_ackp] in Hack; try discriminate Hack;
